@@ -15,6 +15,8 @@ func main() {
 	switch os.Args[1] {
 	case "vals":
 		err = genVals(os.Args[2], os.Args[3])
+	case "tables":
+		err = genTables(os.Args[2], os.Args[3])
 	default:
 		err = fmt.Errorf("unknown generator %s", os.Args[1])
 	}
